@@ -21,7 +21,7 @@
 //
 // trace: {"ev":"config"} then per family {"ev":"stream","id","mode","flows","recs":[..]} and per run
 //
-//	{"ev":"reset"} {"ev":"start","out","disc"} {"ev":"batch","from","n","rc","out","disc","attr","gens","t0","t1"} ...
+//	{"ev":"reset"} {"ev":"start","out","disc"} {"ev":"batch","from","n","rc","out","disc","attr0","attr","gens","t0","t1"} ...
 //	{"ev":"write",...} {"ev":"await",...} {"ev":"final"}
 //
 // out = projection of the remedy state file (see project()), disc = totals of the discovery state file.
@@ -52,9 +52,19 @@ const baseSec = int64(1_700_000_000)
 // RatioScale: ratios are reported as round(ratio * RatioScale) (TLC has integers only)
 const RatioScale = 100000
 
+// X = the run results in canonical spelling (what the specification sees); Xs = the spelling put on the line (case /
+// surrounding blanks are immaterial to the shared model's parsers), X when absent
 type RA struct {
-	R string   `json:"r"`
-	X []string `json:"x"`
+	R  string   `json:"r"`
+	X  []string `json:"x"`
+	Xs []string `json:"xs"`
+}
+
+func (a RA) spelled() []string {
+	if len(a.Xs) == len(a.X) && len(a.Xs) > 0 {
+		return a.Xs
+	}
+	return a.X
 }
 
 type Rec struct {
@@ -299,7 +309,7 @@ func toAccessLog(r Rec, seq int) (common.AccessLog, error) {
 			return al, err
 		}
 		xs := []sharedActions.RemedyReqRunResult{}
-		for _, x := range a.X {
+		for _, x := range a.spelled() {
 			v, err := sharedActions.ParseRemedyReqRunResult(x)
 			if err != nil {
 				return al, err
@@ -314,7 +324,7 @@ func toAccessLog(r Rec, seq int) (common.AccessLog, error) {
 			return al, err
 		}
 		xs := []sharedActions.RemedyRespRunResult{}
-		for _, x := range a.X {
+		for _, x := range a.spelled() {
 			v, err := sharedActions.ParseRemedyRespRunResult(x)
 			if err != nil {
 				return al, err
@@ -335,7 +345,7 @@ func guard(f func() error) (err error) {
 	return f()
 }
 
-func execDirect(tr *vh.Trace, fam Family, run Run, dir string) {
+func execDirect(tr *vh.Trace, fam Family, run Run, ri int, dir string) {
 	path := filepath.Join(dir, fmt.Sprintf("remedy-direct-%d.json", fam.ID))
 	os.Remove(path)
 	tree, err := common.BuildTree(knownOf(fam.Known), fam.Threshold)
@@ -346,7 +356,7 @@ func execDirect(tr *vh.Trace, fam Family, run Run, dir string) {
 	now := int64(0) // ms after base
 	clk.Set(time.Unix(baseSec, 0))
 	state := &remedy.State{Filepath: path}
-	tr.Add(vh.Ev{"ev": "reset"})
+	tr.Add(vh.Ev{"ev": "reset", "run": ri})
 	ev := vh.Ev{"ev": "start", "t0": 0, "t1": 0}
 	if err := guard(state.Initialize); err != nil {
 		ev["err"] = err.Error()
@@ -388,6 +398,7 @@ func execDirect(tr *vh.Trace, fam Family, run Run, dir string) {
 			ev["out"] = project(path, baseSec)
 			ev["disc"] = vh.Ev{"exists": false, "total": 0, "eps": 0}
 			ev["attr"] = lookups(tree, recs)
+			ev["attr0"] = ev["attr"]
 			ev["gens"] = []int{}
 			tr.Add(ev)
 		default:
@@ -443,7 +454,7 @@ func remediesJSON(x []RA) string {
 			s += ","
 		}
 		s += strconv.Quote(a.R) + ":["
-		for j, v := range a.X {
+		for j, v := range a.spelled() {
 			if j > 0 {
 				s += ","
 			}
@@ -509,7 +520,10 @@ func main() {
 	traces := make([]*vh.Trace, chunks)
 	for i := range traces {
 		traces[i] = vh.NewTrace()
-		traces[i].Add(vh.Ev{"ev": "config", "ratio_scale": RatioScale})
+		// refresh interval of the plugin (its own environment variable) and the scheduling slack the specification grants
+		refresh, _ := strconv.Atoi(os.Getenv("LUNAR_AGGREGATION_TREE_REFRESH_SECS"))
+		slack, _ := strconv.Atoi(os.Getenv("X05_SLACK_MS"))
+		traces[i].Add(vh.Ev{"ev": "config", "ratio_scale": RatioScale, "refresh_ms": refresh * 1000, "slack_ms": slack})
 	}
 	runs := 0
 	for fi, fam := range cases.Families {
@@ -519,11 +533,11 @@ func main() {
 			recs = append(recs, recEv(r))
 		}
 		tr.Add(vh.Ev{"ev": "stream", "id": fam.ID, "mode": fam.Mode, "flows": fam.Flows, "recs": recs})
-		for _, run := range fam.Runs {
+		for ri, run := range fam.Runs {
 			if fam.Mode == "plugin" {
-				execPlugin(tr, fam, run, tmp)
+				execPlugin(tr, fam, run, ri, tmp)
 			} else {
-				execDirect(tr, fam, run, tmp)
+				execDirect(tr, fam, run, ri, tmp)
 			}
 			runs++
 		}
